@@ -1156,6 +1156,10 @@ M('C04', 'python tensordot: accumulating gemv calls lose trans=True (round-4 see
   "        kw_no_overwrite = {'trans': True}\n        kw_overwrite.update(kw_no_overwrite)\n", "        kw_no_overwrite = {'trans': True}\n",
   'PAIR-accumulate-options')
 
+M('C13', '_canonicalize: final test chained with elif (round-4 seed b)', 'tenpy/algorithms/dmrg.py',
+  "        if norm_err > norm_tol_final:\n            self._resume_psi = self.psi.copy()", "        elif norm_err > norm_tol_final:\n            self._resume_psi = self.psi.copy()",
+  'HOOKS-final-canonical')
+
 # ---------------------------------------------------------------- C16 / C19
 M('C16', 'GMRES restart: relative residual norm used for normalisation (round-3 seed b)', KRY,
   """        self.total_error.append([npc.norm(self.rs[-1]) / self.b_norm])
